@@ -7,4 +7,3 @@ func (s *Sim) checkBuffers(ctx *StepCtx)     {}
 func (s *Sim) checkPerio(ctx *StepCtx)       {}
 func (s *Sim) checkTranslation(ctx *StepCtx) {}
 func (s *Sim) finalReports()                 {}
-func (s *Sim) coverState(ctx *StepCtx)       {}
